@@ -152,25 +152,32 @@ func checkReferenceKeysRaw(p *core.Prog, r *core.Report, rule string) {
 				return
 			}
 			n++
-			src := core.Trace(lk.Index, 0)
-			for c := range src.Calls {
-				if !strings.HasPrefix(c.Name(), "Get") {
-					bad = append(bad, c.Name()+" at "+p.Pos(lk.Pos()))
-				}
+			// the key, or what the helper's parameter stands for at each of its calls
+			keys := []ssa.Value{lk.Index}
+			if cvs := core.CallerValues(fn, lk.Index); len(cvs) > 0 {
+				keys = cvs
 			}
-			okField := false
-			for f := range src.Fields {
-				if f.Name() == "ModuleName" || f.Name() == "Module" {
-					okField = true
+			for _, kv := range keys {
+				src := core.Trace(kv, 0)
+				for c := range src.Calls {
+					if !strings.HasPrefix(c.Name(), "Get") {
+						bad = append(bad, c.Name()+" at "+p.Pos(lk.Pos()))
+					}
 				}
-			}
-			for c := range src.Calls {
-				if c.Name() == "GetModuleName" || c.Name() == "GetModule" {
-					okField = true
+				okField := false
+				for f := range src.Fields {
+					if f.Name() == "ModuleName" || f.Name() == "Module" {
+						okField = true
+					}
 				}
-			}
-			if !okField {
-				bad = append(bad, "key not from a reference field at "+p.Pos(lk.Pos()))
+				for c := range src.Calls {
+					if c.Name() == "GetModuleName" || c.Name() == "GetModule" {
+						okField = true
+					}
+				}
+				if !okField {
+					bad = append(bad, "key not from a reference field at "+p.Pos(lk.Pos()))
+				}
 			}
 		})
 		sort.Strings(bad)
@@ -183,7 +190,7 @@ func checkReferenceKeysRaw(p *core.Prog, r *core.Report, rule string) {
 func checkKeyTermSameKey(p *core.Prog, r *core.Report, rule string) {
 	prov := func(fn *ssa.Function, field string) (string, bool) {
 		res, found := "", false
-		core.Instrs(fn, func(in ssa.Instruction) {
+		core.InstrsDeep(fn, func(in ssa.Instruction) { // (the lookup may sit in a helper that is handed the key)
 			lk, ok := in.(*ssa.Lookup)
 			if !ok {
 				return
@@ -192,7 +199,7 @@ func checkKeyTermSameKey(p *core.Prog, r *core.Report, rule string) {
 			if f == nil || f.Name() != field {
 				return
 			}
-			src := core.Trace(lk.Index, 0)
+			src := core.TraceFrom(fn, lk.Index, 0)
 			var parts []string
 			for fl := range src.Fields {
 				parts = append(parts, "."+fl.Name())
